@@ -281,6 +281,9 @@ FIXED_REQUESTS = [
     "/d.dods?p,mean(b,0)", "/d.dds?q,mean(g,1)", "/d.ascii?r,mean(a)", "/d.dods?i,mean(b,1)",
     # the DMR of a constrained dataset
     "/d.dmr?a[1:2:7]", "/d.dmr?s.i&s.i>1", "/d.dmr?g.gx,st.in", "/d.dmr?mean(b,0)", "/d.dmr?nope",
+    # a member of a grid named again after (before) the whole grid: after fix e9f11ba apply_projection leaves it where
+    # it is (no del / __setitem__ on the grid); the member-first order builds a degenerate Structure
+    "/d.dods?g,g.gy", "/d.dods?g,g.g", "/d.dods?g[0:1][1:2],g.gx", "/d.dds?g.gx,g", "/d.ascii?g,g.gx,g.gy",
 ]
 
 
